@@ -2,7 +2,7 @@ SPECIFICATION Spec
 CONSTANTS
   Conns = {c1, c2}
   Outsiders = {}
-  MaxNonce = 1
+  MaxNonce = 0
 INVARIANTS
   NoDiallerTie
 CHECK_DEADLOCK FALSE
